@@ -92,7 +92,8 @@ TraceNext ==
     /\ out' = Rec[l].op
     /\ LET b == Bad(Rec[l].op, Rec[l].obs, S')
            isInit == Rec[l].op.a = "init" IN
-       /\ bad' = IF isInit \/ (dead /\ ~isInit) THEN {} ELSE b
+       \* once the run has drifted only the tag that rests on the logged operations alone is still judged
+       /\ bad' = IF isInit THEN {} ELSE IF dead THEN {x \in b : x[2] = "insert_overwritten_by_late_fetch"} ELSE b
        /\ dead' = IF isInit THEN FALSE ELSE (dead \/ b # {})
     /\ l' = l + 1
 
